@@ -15,7 +15,7 @@ def pcc_landscape(
     max_shifts: tuple[float, ...],
     backend: Backend,
 ):
-    product = f0 * f1.conj()
+    product = _cross_power(f0, f1)
     power = _abs2(backend.ifftn(product))
     power = backend.fftshift(power)
     centers = tuple(s // 2 for s in power.shape)
@@ -34,7 +34,7 @@ def subpixel_pcc(
     max_shifts: tuple[float, ...] | NDArray[np.number],
     backend: Backend,
 ) -> tuple[NDArray[np.float32], float]:
-    product = f0 * f1.conj()
+    product = _cross_power(f0, f1)
     power = _abs2(backend.ifftn(product))
     _max_shifts = np.asarray(max_shifts, dtype=np.float32)
     # The refinement below searches -0.75..+0.70 pixel around the integer peak and is
@@ -110,6 +110,17 @@ def _upsampled_dft(
         kernel = backend.exp(-2j * np.pi * (nth[:, np.newaxis] * freq))  # type: ignore
         data = backend.tensordot(kernel, data, axes=(1, -1))
     return data
+
+
+def _cross_power(
+    f0: AnyArray[np.complex64], f1: AnyArray[np.complex64]
+) -> AnyArray[np.complex64]:
+    product = f0 * f1.conj()
+    # The zero-frequency term only adds the same constant to every shift. On a
+    # constant background it is orders of magnitude larger than the signal and, in
+    # single precision, the peak is lost in its rounding error.
+    product[(0,) * product.ndim] = 0
+    return product
 
 
 def _abs2(a: AnyArray[np.complex64]) -> AnyArray[np.float32]:
